@@ -128,7 +128,7 @@ Example ex_proof_exists :
   exists tbl n, explain_ref_fuel 5 [ex_rule] ex_base ex_store = Some tbl /\
                 find_proof tbl (2, [CNum 1]) = Some n /\
                 check_proof [ex_rule] ex_base ex_store (2, [CNum 1]) n = true.
-Proof. vm_compute. eexists. eexists. repeat split. Qed.
+Proof. eexists. eexists. split; [vm_compute; reflexivity|]. split; vm_compute; reflexivity. Qed.
 
 (* ---- witnesses of the defects fixed in provenance/provenance.go: what the pre-fix
    code returned is rejected by the judge of the correspondence (code 3 = a complete
@@ -152,7 +152,7 @@ Print Assumptions f9_no_proof_refuted.
 Example f9_has_proof :
   exists n, find_proof (explain_ref f9_prog f9_base f9_store) (3, [CNum 1]) = Some n /\
             check_proof f9_prog f9_base f9_store (3, [CNum 1]) n = true.
-Proof. vm_compute. eexists. split; reflexivity. Qed.
+Proof. eexists. split; vm_compute; reflexivity. Qed.
 
 (* F9b: p1(1). p0(2). p1(X) :- p0(X).  - the initial fact p1(1) is proved by a leaf *)
 Theorem f9b_no_proof_refuted :
